@@ -7,7 +7,7 @@ NAMES = ['foo', 'Foo', 'foo-bar', 'Foo_.Bar', 'a', 'A1', 'x1.y-2_z', 'requests',
 EXTRA_IDS = ['a', 'b', 'security', 'Tests', 'a_b', 'A.b', 'x-y', 'x--y', '1a']
 SPECS = ['>=1.0', '==2.8.*', '<2', '~=1.4.2', '!=1.5', '<=3.0.0', '>1.0a1', '==1.0+local', '>=1!2.0', '== 1.0', '>= 2.8.1', '!=1.*', '==1.0.post1', '<2.0.dev1', '===1.0', '>=0']
 URLS = ['https://h/p', 'https://example.org/a/b.whl', 'git+https://h/p@v1#egg=x', 'file:///a/b', 'https://h/p?q=1&r=2', 'https://h/p;x=1', 'https://h/#', 'https://h/p#frag',
-        'https://u:pw@h:8080/p', 'http://h/a%20b', 'https://h/[x]', 'git+ssh://git@h/r.git', 'https://h/p;', 'https://h/é', 'svn+https://h/p', 'hg+static-http://h/p']
+        'https://u:pw@h:8080/p', 'http://h/a%20b', 'https://h/[x]', 'git+ssh://git@h/r.git', 'https://h/p;', 'https://h/é', 'svn+https://h/p', 'hg+static-http://h/p', 'hg+static-http://h/repo/pkg@v1.0#egg=pkg', 'x-y.z+w://h/p', 'HG+Static-Http://h/p']
 WS = ['', ' ', '  ', '\t', ' \t ']
 # texts just outside (or at the edge of) the grammar, and URLs whose percent escapes are not UTF-8: every entry point sees all of them
 NEAR_GRAMMAR = ['numpy ()', 'numpy ( )', 'numpy (>=1.0,)', 'numpy (,)', 'numpy (,>=1.0)', 'numpy >=1.0,', 'numpy ,>=1.0', 'numpy[]', 'numpy[ ]', 'numpy[,]', 'numpy[a,]', 'numpy[,a]',
